@@ -64,6 +64,8 @@ def offenders(ev: dict, clause: str) -> str:
         for a, b in zip(ev["pre"]["fits"], ev["post"]["fits"]):
             if not (0 <= b["v"] <= a["v"]):
                 out.append(f"{a['n']}[ex={ev['exs'][a['x']]}]: fitness rank {a['v']} -> {b['v']}")
+    elif clause == "MergeKeepsInputs":
+        out.append("analyze_results over the same cached results changed an individual trace")
     elif clause == "MergeOrderIndependent":
         first = ev["projs"][0]
         for h, p in zip(ev["how"], ev["projs"]):
@@ -80,6 +82,8 @@ def _site(ev: dict, clause: str) -> str:
         names = sorted({a["n"] for a, b in zip(ev["pre"]["covs"], ev["post"]["covs"]) if not (0 <= a["v"] <= b["v"])})
     elif clause == "AddFitnessMonotone":
         names = sorted({a["n"] for a, b in zip(ev["pre"]["fits"], ev["post"]["fits"]) if not (0 <= b["v"] <= a["v"])})
+    elif clause == "MergeKeepsInputs":
+        names = ["analyze_results"]
     else:
         names = ["ExecutionTrace.merge"]
     return ",".join(names) or "?"
